@@ -309,6 +309,24 @@ def run_unit(unit: Unit, repo: str = REPO, probe: bool = True, tag: str = '', _d
         return ur
     if vr.rlimit_diags():
         ur.reason = 'solver resource limit exceeded: ' + vr.rlimit_diags()[0].message
+        # a proof that runs out of resources is UNDECIDED (never a verdict); the clauses of that function are handed to the
+        # property's witness search, which may decide them by replaying a failing input on the real code
+        try:
+            tl = text.split('\n')
+            und, seen = [], set()
+            for d in vr.rlimit_diags():
+                infos = [_span_info(out, tl, sp, os.path.basename(vr.path)) for sp in d.spans]
+                for fid in {i['fn'] for i in infos if i and i.get('fn')}:
+                    for ob in ur.obligations:
+                        if ob.startswith(fid + '#') and not ob.endswith('#proof-hint') and ob not in seen:
+                            seen.add(ob)
+                            fl = Failure(unit.name, ob, 'not verifiable: solver resource limit exceeded', [], d.rendered)
+                            fl.props = sorted(set(unit.props_of_failure(fl)) | set(unit.props_of(ob)))
+                            und.append(fl)
+            if und:
+                ur.undecided_failures = und
+        except Exception:
+            pass
         ur.wall_s = time.time() - t0
         return ur
     ur.failures = map_failures(unit, out, vr, text)
